@@ -20,7 +20,7 @@ import (
 	"verif/harness/internal/out"
 )
 
-var scenarios = []string{"rr-stable-failing", "rr-shared-shuffle", "rr-fixed", "rr-dynamic", "random-fixed", "random-dynamic", "mw-rr", "mw-random"}
+var scenarios = []string{"rr-built-on-one-proc", "rr-stable-failing", "rr-shared-shuffle", "rr-fixed", "rr-dynamic", "random-fixed", "random-dynamic", "mw-rr", "mw-random"}
 
 type dynStep struct {
 	Idx int `json:"report"` // index into the pool; -1: the subscriber was not asked
@@ -129,6 +129,10 @@ func childMain(cfg out.Config, scenario string) {
 				ctor = "fixed"
 			}
 			o.Conc = append(o.Conc, concRR(hostList(c[0]), c[1], c[2], seed+uint64(i)*977, ctor))
+		}
+	case "rr-built-on-one-proc":
+		for i, c := range [][3]int{{2, 8, 50}, {3, 16, 30}, {5, 8, 40}} {
+			o.Conc = append(o.Conc, concBuiltOnOneProc(hostList(c[0]), c[1], c[2], i))
 		}
 	case "rr-stable-failing":
 		for i, c := range [][3]int{{2, 8, 50}, {3, 16, 30}, {7, 8, 35}} {
